@@ -19,6 +19,7 @@ pub mod c17;
 pub mod c18;
 pub mod c19;
 pub mod c20;
+pub mod batch;
 pub mod c21;
 pub mod c24;
 pub mod c25;
@@ -61,6 +62,8 @@ pub fn dispatch(ctx: &Ctx) -> i32 {
         "C19" => c19::run(ctx),
         "C20" => c20::run(ctx),
         "C21" => c21::run(ctx),
+        "C22" => batch::run(ctx, false),
+        "C23" => batch::run(ctx, true),
         "C24" => c24::run(ctx),
         "C25" => c25::run(ctx),
         "C26" => c26::run(ctx),
